@@ -106,16 +106,20 @@ def run(pid, thorough=False):
         res["broken"].append("no theorems found in Properties/%s.lean" % pid)
     discharged = 0
     if full_ok and thms:
-        with tempfile.NamedTemporaryFile("w", suffix=".lean", delete=False, dir=os.environ.get("VERIF_SCRATCH", "/tmp")) as f:
-            for m in mods: f.write("import Properties.%s\n" % m)
-            for t in thms:
-                f.write("#print axioms %s\n" % t)
-            tmp = f.name
-        try:
-            a = subprocess.run(["lake", "env", "lean", tmp], cwd=LEAN, capture_output=True, text=True)
-        finally:
-            os.unlink(tmp)
-        out = a.stdout + a.stderr
+        out = ""
+        for m in mods:
+            mt = [t for mm, t in thm_pairs if mm == m]
+            if not mt: continue
+            with tempfile.NamedTemporaryFile("w", suffix=".lean", delete=False, dir=os.environ.get("VERIF_SCRATCH", "/tmp")) as f:
+                f.write("import Properties.%s\n" % m)
+                for t in mt:
+                    f.write("#print axioms %s\n" % t)
+                tmp = f.name
+            try:
+                a = subprocess.run(["lake", "env", "lean", tmp], cwd=LEAN, capture_output=True, text=True)
+            finally:
+                os.unlink(tmp)
+            out += a.stdout + a.stderr
         # parse "'name' depends on axioms: [a, b]" / "'name' does not depend on any axioms"
         for t in thms:
             m = re.search(r"'%s' depends on axioms: \[([^\]]*)\]" % re.escape(t), out, re.S)
